@@ -85,7 +85,18 @@ func (g *registry) source() sqlgen.LiteralSource {
 			switch k {
 			case 0:
 				kind, s = sqlgen.LitInt, "70"+c+"1"
-				g.add(s, markerInfo{kind, q.Slot, true, "whole"})
+				switch {
+				case !intOnly && n%6 == 1:
+					// an integer beyond int64: still an integer literal of the statement
+					s += "00000000000009"
+					g.add(s, markerInfo{kind, q.Slot, true, "whole-unrepresentable"})
+				case !intOnly && n%6 == 2:
+					// leading zero with digits 8/9 (not an octal number for a base-0 parser)
+					s = "0" + s + "8"
+					g.add(s, markerInfo{kind, q.Slot, true, "whole-unrepresentable"})
+				default:
+					g.add(s, markerInfo{kind, q.Slot, true, "whole"})
+				}
 			case 1:
 				kind = sqlgen.LitDecimal
 				f := fmt.Sprintf("5%06d1", n%1000000)
@@ -94,7 +105,13 @@ func (g *registry) source() sqlgen.LiteralSource {
 				g.add(f, markerInfo{kind, q.Slot, true, "fraction-part"})
 			case 2:
 				kind, s = sqlgen.LitExponent, "75"+c+".5e5"
-				g.add("75"+c, markerInfo{kind, q.Slot, true, "integer-part"})
+				if n%5 == 1 {
+					// beyond float64
+					s = "75" + c + ".5e999"
+					g.add("75"+c, markerInfo{kind, q.Slot, true, "integer-part-unrepresentable"})
+				} else {
+					g.add("75"+c, markerInfo{kind, q.Slot, true, "integer-part"})
+				}
 			case 3:
 				kind, s = sqlgen.LitNegInt, "-79"+c+"1"
 				g.add("79"+c+"1", markerInfo{kind, q.Slot, true, "whole"})
